@@ -15,7 +15,10 @@ RULE = ("programs drawn from a typed grammar of the documented ONNX Script subse
         "attribute params with/without defaults, expressions with Python literals in operand positions, ~35 ops incl. multi-output "
         "Split/TopK, if/else on a one-element condition, for over range(literal|attribute|INT64 tensor) with optional trailing "
         "conditional break, while with reassigned condition, nesting <=2, variables defined in one or both branches, loop-carried and "
-        "captured variables, calls to generated helper script functions, tuple returns, returned parameters / duplicates); each "
+        "captured variables, calls to generated helper script functions, tuple returns, returned parameters / duplicates, inputs passed "
+        "by keyword after an omitted optional input, shape-preserving Slice/Gather subscripts, while bodies whose last statement "
+        "conditionally updates a variable only the next iteration reads; 1 program in 16 is a comparison/Where/if program run on "
+        "NaN, +-inf, +-0 and ties); each "
         "program is executed 4 ways per input: eager, ORT(to_model_proto) [attribute-free programs], ORT(model calling "
         "to_function_proto, attributes explicit and defaults omitted), numpy reading of the same source (vf/refsem.py). "
         "non-trivial = accepted program with control flow or a promoted literal; distinct = feature set of the program")
